@@ -9,7 +9,7 @@ use blots_core::values::format_display_number;
 use proptest::prelude::*;
 use std::cmp::Ordering;
 
-pub const RULE: &str = "doubles from a boundary pool, notation thresholds (1e-4, 1e15) and powers of ten +-4 ulps (and +-400 ulps for 1e-10..1e22), whole numbers 1..10^5 +-4000 ulps, 15-digit carry values, subnormals and uniformly random bit patterns; each is rendered by format_display_number (1 in 16 also through the format built-in), parsed by the harness's numeral grammar and compared with the exact decimal expansion of the double. Non-trivial = finite and not an integer below 1e15; distinct by bit pattern.";
+pub const RULE: &str = "doubles from a boundary pool, notation thresholds (1e-4, 1e15) and powers of ten +-4 ulps (and +-400 ulps for 1e-10..1e22), whole numbers 1..10^5 +-4000 ulps, 15-digit carry values, subnormals and uniformly random bit patterns; each is rendered by format_display_number (1 in 16 also through the format built-in, alone and nested in a list / record argument), parsed by the harness's numeral grammar and compared with the exact decimal expansion of the double. Non-trivial = finite and not an integer below 1e15; distinct by bit pattern.";
 pub const ASSUMPTIONS: &[&str] = &[
     "Rust's float formatting with explicit precision ({:.1100e}) is exact (trusted base of the decimal model)",
     "the harness decimal arithmetic (model::dec) is correct; it has its own unit test",
@@ -173,6 +173,12 @@ impl Check for Display {
                     }
                 }
                 other => fail!("format-builtin:error", "format(\"{{}}\", {:e}) gave {:?}", x, other),
+            }
+            // the number inside a list / record argument is displayed the same way
+            let want_nested = format!("[{}, {{k: {}, l: [{}]}}] {}", s, s, s, s);
+            match sess.obs("format(\"{} {}\", [x, {k: x, l: [x]}], x)") {
+                Ok(MV::Str(t)) if t == want_nested => {}
+                other => fail!("format-builtin:nested-differs", "format(\"{{}} {{}}\", [x, {{k: x, l: [x]}}], x) = {:?}, expected {:?} (x = {:e})", other, want_nested, x),
             }
             ctx.label("via-format-builtin");
         }
